@@ -25,7 +25,8 @@ JudgeTable(e) ==
         ELSE <<>>)
 
 JudgeSearch(e) ==
-       Fails(e, "OwnId", e.has_mcs => e.id_matches)
+       Fails(e, "SearchDoesNotRaise", e.crashed = "")
+    \o Fails(e, "OwnId", e.has_mcs => e.id_matches)
     \o Fails(e, "MoleculesAreCarbonRicherSide", e.has_mcs => e.bag_ok)
     \o Fails(e, "PatternPerMolecule", e.has_mcs => e.nmol = e.npat)
     \o Fails(e, "PatternsContained", e.has_mcs => \A j \in 1..Len(e.contained) : e.contained[j])
